@@ -49,9 +49,9 @@ ASSUMPTIONS = [
     "ThreadPoolExecutor in shutdown(wait=False) is modelled with one thread per cancel task (more interleavings than the pool)",
     "the Lean model has one process per job; process trees (a child that ignores SIGTERM) are covered by direct property checks "
     "only: simulated tree probes and real wrapper/child commands, verdict from process state (/proc: alive and no SIGKILL pending)",
-    "cancel() is only required to clean up a process tree that stands when it is called: a child forked by a SIGTERM-ignoring "
-    "solver during the 0.5 s grace period is missed by the pinned code (observed and counted, never judged; "
-    "replays/C17-cancel-late-fork.patch.diff)",
+    "cancel() must clean up the tree that stands when it is called and what a SIGTERM-surviving solver forks during the 0.5 s "
+    "grace period (judged by the late-fork probes, fork triggered by the SIGTERM itself); forks after the final listing are "
+    "outside the property",
     "real-subprocess verdicts never come from an elapsed-time threshold: readiness, survival and delivery are decided from "
     "/proc state, future state and worker-thread liveness; waits that run out are counted as real:slow:* without verdict",
 ]
@@ -1222,55 +1222,139 @@ def real_process_runs(ctx, n_runs, literals, forced=None):
     try:
         _real_process_runs(ctx, n_runs, P, ctx.rng, escaped, forced)
         if not forced:
-            observe_late_fork(ctx, P)
+            for path in ("shutdown", "timeout"):
+                late_fork_probe(ctx, P, escaped, path)
     finally:
         threading.excepthook = old_hook
 
 
 LATE_FORK_WRAPPER = r"""
-import signal, time, subprocess, sys
-signal.signal(signal.SIGTERM, signal.SIG_IGN)
-open(sys.argv[1], "w").close()
-time.sleep(0.25)
-subprocess.run(["sleep", sys.argv[2]])
+import signal, subprocess, sys, time
+got = []
+signal.signal(signal.SIGTERM, lambda *a: got.append(1))      # survives SIGTERM; learns that cancel() has sent it
+open(sys.argv[1], "w").close()                               # ready: handler installed, no child yet
+while not got:
+    time.sleep(0.002)
+subprocess.Popen(["sleep", sys.argv[2]])                     # forked after cancel() listed the tree, inside its grace period
+with open(sys.argv[1] + ".forked.tmp", "w") as fh:
+    fh.write(repr(time.monotonic()))
+import os
+os.rename(sys.argv[1] + ".forked.tmp", sys.argv[1] + ".forked")
+time.sleep(120)
 """
 
+KEY_LATE_FORK = "real:descendant-alive-after-cancel:forked-during-grace-period"
 
-def observe_late_fork(ctx, P):
-    """OBSERVATION ONLY (never a verdict): a top-level process that ignores SIGTERM and forks a child inside cancel()'s
-    0.5 s grace period. The code at the pinned commit lists the process tree once, before SIGTERM, so the child is not
-    force-killed, keeps the stdout pipe and blocks the worker in communicate() (replays/C17-cancel-late-fork.*)."""
+
+def late_fork_probe(ctx, P, escaped, path):
+    """JUDGED. A top-level solver process that survives SIGTERM and forks a child only after cancel() has sent SIGTERM
+    (so after cancel() listed the process tree), i.e. inside the grace period. After cancel() — reached through
+    shutdown(wait=False) (`path == "shutdown"`) or through the job's time limit (`path == "timeout"`) — no process of
+    the tree may survive and the result must be delivered.
+    Deterministic: the fork is triggered by the SIGTERM itself. Judged only when the fork is known (CLOCK_MONOTONIC
+    stamps of both sides) to have happened at least 0.1 s before the earliest possible end of the 0.5 s grace period;
+    otherwise the run is counted as real:slow:* without verdict."""
     import os
     import sys
     import tempfile
     flag = tempfile.mktemp(prefix="c17_latefork_")
-    token = f"38.{os.getpid() % 100000:05d}77"
+    token = f"38.{os.getpid() % 100000:05d}{'77' if path == 'shutdown' else '88'}"
+    limit = None if path == "shutdown" else 3.0
+    replay = {"kind": "late-fork", "path": path}
+    del escaped[:]
     ex = P.PopenExecutor()
-    f = P.PopenFuture([sys.executable, "-c", LATE_FORK_WRAPPER, flag, token])
+    f = P.PopenFuture([sys.executable, "-c", LATE_FORK_WRAPPER, flag, token], timeout=limit)
+    t_cancel = []
+    real_cancel = f.cancel
+
+    def cancel():
+        t_cancel.append(time.monotonic())
+        try:
+            return real_cancel()
+        except BaseException as e:  # noqa: BLE001
+            escaped.append(types.SimpleNamespace(exc_value=e))
+            raise
+
+    f.cancel = cancel
+    count = [0]
+    real_set = f.set_result
+
+    def set_result(r):
+        count[0] += 1
+        return real_set(r)
+
+    f.set_result = set_result
+    ctx.count(f"real:late-fork:{path}")
+    ctx.case(("real", "late-fork", path))
     try:
+        before = set(threading.enumerate())
+        t_submit = time.monotonic()
         ex.submit(f)
-        t_end = time.time() + 30
-        while not os.path.exists(flag) and time.time() < t_end:
-            time.sleep(0.005)
-        if not os.path.exists(flag):
-            ctx.count("real:observe:late-fork-child:setup-slow")
+        worker = [t for t in threading.enumerate() if t not in before]
+        worker = worker[0] if len(worker) == 1 else None
+        t_end = time.time() + 60
+        while not os.path.exists(flag) and time.time() < t_end and not f.done():
+            time.sleep(0.002)
+        if not os.path.exists(flag) or (limit and time.monotonic() - t_submit > limit - 1.0):
+            ctx.count("real:slow:late-fork-setup-not-ready-in-time(no verdict)")
             return
-        ex.shutdown(wait=False)
-        time.sleep(0.5)
-        left = [pid for pid, i in survivors(token).items() if i[0] and i[0][0] == "sleep"]
-        ctx.count("real:observe:late-fork-child:" + ("survives-cancel" if left else "killed"))
+        if path == "shutdown":
+            ex.shutdown(wait=False)
+        else:
+            # the job's own time limit: wait for the worker's cleanup (future done, or worker thread ended)
+            t_end = time.time() + 120
+            while not f.done() and time.time() < t_end and (worker is None or worker.is_alive()):
+                time.sleep(0.01)
+        if [a for a in escaped if not isinstance(a.exc_value, P.ShutdownError)]:
+            ctx.count("real:assumption-broken:cancel-raised-in-late-fork-probe")
+            return
+        # did the fork happen in time to be seen by a re-listing at the end of the grace period?
+        t_end = time.time() + 30
+        while not os.path.exists(flag + ".forked") and time.time() < t_end:
+            time.sleep(0.005)
+        try:
+            t_fork = float(open(flag + ".forked").read())
+        except (OSError, ValueError):
+            t_fork = None
+        if not t_cancel or t_fork is None or t_fork > t_cancel[0] + 0.4:
+            ctx.count("real:slow:late-fork-after-grace-period(no verdict)")
+            return
+        if path == "timeout" and not f.done() and worker is not None and worker.is_alive():
+            # the worker is still inside cancel()/communicate: judged below from the process state only if cancel returned
+            pass
+        job = _TokenOnly(token)
+        left = _settled_survivors([job], patience=60.0)
         if left:
-            ctx.note("observation (no verdict): a child forked by a SIGTERM-ignoring solver during cancel()'s grace period "
-                     "survives shutdown(wait=False) and blocks result(); see replays/C17-cancel-late-fork.patch.diff")
-    except Exception as e:  # noqa: BLE001
-        ctx.count(f"real:observe:late-fork-child:error-{type(e).__name__}")
+            pids = left[job]
+            cmds = [" ".join(token_procs(token).get(p, ([], "", 0, 0))[0])[:50] for p in pids]
+            ctx.violation(KEY_LATE_FORK,
+                          f"real processes: processes {pids} ({cmds}) of a solver that forked during cancel()'s grace period are "
+                          f"alive and not killed after {'shutdown(wait=False) returned' if path == 'shutdown' else 'the time limit cleanup'}"
+                          f"; result delivered: {f.done()}", replay)
+            return
+        t_end = time.time() + 90
+        while not f.done() and time.time() < t_end and (worker is None or worker.is_alive()):
+            time.sleep(0.01)
+        if not f.done():
+            if worker is not None and not worker.is_alive():
+                ctx.violation("real:result-never-delivered", "late-fork probe: the worker thread has ended without set_result", replay)
+            else:
+                ctx.count("real:slow:result-pending-after-90s(no verdict)")
+        elif count[0] != 1:
+            ctx.violation("real:result-once", f"late-fork probe: set_result executed {count[0]} times", replay)
     finally:
         import signal
         for pid in token_procs(token):
             with __import__("contextlib").suppress(OSError):
                 os.kill(pid, signal.SIGKILL)
-        with __import__("contextlib").suppress(OSError):
-            os.unlink(flag)
+        for suffix in ("", ".forked", ".forked.tmp"):
+            with __import__("contextlib").suppress(OSError):
+                os.unlink(flag + suffix)
+
+
+class _TokenOnly:
+    def __init__(self, token):
+        self.token = token
 
 
 def _settled_survivors(jobs, patience=60.0):
@@ -1723,6 +1807,12 @@ def follow_loose(labels):
 
 def replay(ctx, data) -> bool:
     d = data.get("replay", data)
+    if d.get("kind") == "late-fork":
+        P, _S = mods()
+        for _ in range(2):
+            late_fork_probe(ctx, P, [], d["path"])
+        want = data.get("key")
+        return any(v["key"] == want for v in ctx.violations) if want else bool(ctx.violations)
     if d.get("kind") == "real":
         # the same job mix, three times (real processes: the overlap cases depend on timing)
         forced = [(d["mode"], list(d["jobs"]), bool(d.get("overlap")))] * 3
